@@ -281,7 +281,8 @@ Record Inv (s : store) : Prop := {
   inv_ksf : find ks_key (file_of s) = None;
   inv_fnodup : NoDup (map fst (file_of s));
   inv_noov : forall k k', In k (keys s) -> In k' (keys s) -> strict_prefix k k' = false;   (* no key extends another *)
-  inv_cache : forall k i, find k (cache s) = Some i -> exists n, find k (file_of s) = Some n /\ seen (filt s) n = i
+  inv_cache : forall k i, find k (cache s) = Some i -> exists n, find k (file_of s) = Some n /\ seen (filt s) n = i;
+  inv_filt : 0 <= filt s                                           (* the handle's filter is one the constructor accepted *)
 }.
 
 Lemma inv_init : Inv init.
@@ -348,6 +349,7 @@ Proof.
     + specialize (Ho' b Hb). unfold overlaps in Ho'. apply orb_false_iff in Ho'. tauto.
     + apply strict_prefix_irrefl.
   - intros k' i H. destruct (inv_cache _ I k' i H) as [m [Hm Hb]]. exists m. rewrite find_app, Hm. auto.
+  - apply (inv_filt _ I).
 Qed.
 
 (* the two outcomes of Artifact.write: rejected and nothing changed, or the node and the key are added *)
@@ -404,6 +406,7 @@ Proof.
   - intros k' i H. destruct (key_dec k' k) as [E|E]; [subst; rewrite find_del_same in H; discriminate|].
     rewrite (find_del_other _ _ _ E) in H. destruct (inv_cache _ I k' i H) as [m [Hm Hb]].
     exists m. rewrite (find_del_other _ _ _ E). auto.
+  - apply (inv_filt _ I).
 Qed.
 
 Lemma remove_done s k : Inv s -> In k (keys s) -> k <> ks_key -> remove s k = (removed s k, Done).
@@ -465,6 +468,7 @@ Proof.
     apply find_None. apply find_del_same.
   - apply (inv_noov _ I).
   - intros k' i H. apply find_del_sub in H. destruct (inv_cache _ I k' i H) as [m [Hm Hb]]. exists m. now rewrite Hfind.
+  - apply (inv_filt _ I).
 Qed.
 
 Lemma replace_cases s k d : Inv s ->
@@ -537,7 +541,8 @@ Proof.
   - now apply remove_inv.
   - now apply replace_inv.
   - destruct I; constructor; simpl; try assumption. discriminate.
-  - rewrite <- (inv_ks _ I). destruct I; constructor; simpl; try assumption; [reflexivity | discriminate].
+  - destruct (f <? 0) eqn:Ef; [assumption|]. apply Z.ltb_ge in Ef. simpl.
+    rewrite <- (inv_ks _ I). destruct I; constructor; simpl; try assumption; [reflexivity | discriminate].
 Qed.
 
 Theorem run_inv ops : forall s, Inv s -> Inv (run s ops).
@@ -633,9 +638,9 @@ Proof.
     simpl in Hw; destruct o2; simpl; try congruence;
     destruct (hdf_write (file_of s2) k od) as [f3 [e3|]]; simpl; congruence.
 Qed.
-Lemma step_filt s o : filt (fst (step s o)) = match o with Reopen f => f | _ => filt s end.
+Lemma step_filt s o : filt (fst (step s o)) = match o with Reopen f => if f <? 0 then filt s else f | _ => filt s end.
 Proof.
-  destruct o as [k d|k|k|k d| |f]; simpl; try reflexivity.
+  destruct o as [k d|k|k|k d| |f]; simpl; try reflexivity; try (destruct (f <? 0); reflexivity).
   - apply write_filt.
   - apply (load_file s k).
   - apply remove_filt.
@@ -651,7 +656,7 @@ Lemma step_sim s1 s2 o : Inv s1 -> Inv s2 -> sim s1 s2 ->
   snd (step s1 o) = snd (step s2 o) /\ sim (fst (step s1 o)) (fst (step s2 o)).
 Proof.
   intros I1 I2 [S Hfl].
-  assert (Hfl' : filt (fst (step s1 o)) = filt (fst (step s2 o))) by (rewrite !step_filt; destruct o; congruence).
+  assert (Hfl' : filt (fst (step s1 o)) = filt (fst (step s2 o))) by (rewrite !step_filt; destruct o as [| | | | |f]; try congruence; destruct (f <? 0); congruence).
   cut (snd (step s1 o) = snd (step s2 o) /\ sim0 (fst (step s1 o)) (fst (step s2 o))).
   { intros [A B]. split; [assumption | split; assumption]. }
   destruct o as [k d|k|k|k d| |f]; simpl.
@@ -667,7 +672,7 @@ Proof.
   - now apply remove_sim0.
   - now apply replace_sim0.
   - destruct S as [Hf [Hs Hk]]. repeat split; assumption.
-  - destruct S as [Hf [Hs Hk]]. repeat split; assumption.
+  - destruct S as [Hf [Hs Hk]]. destruct (f <? 0); simpl; repeat split; assumption.
 Qed.
 
 Theorem sim_outs ops : forall s1 s2, Inv s1 -> Inv s2 -> sim s1 s2 -> outs s1 ops = outs s2 ops.
@@ -693,7 +698,7 @@ Proof.
             (forall k i, find k (cache (fst (step s o))) = Some i -> find k (cache s) = Some i) /\
             (bad_replace o = false -> fst (step s o) = s)).
   { intros E. rewrite E. split; [apply sim_refl | auto]. }
-  destruct o as [k d|k|k|k d| |]; simpl in *; try discriminate.
+  destruct o as [k d|k|k|k d| |f]; simpl in *; try discriminate.
   - destruct (write_cases s k d I) as [[H _]|[n [_ [_ [_ [_ H]]]]]]; [auto | rewrite H in Hr; discriminate].
   - apply Heq. unfold load in *. destruct (memk k (keys s)); simpl in *; [|reflexivity].
     destruct (key_eqb k ks_key); [reflexivity|]. destruct (find k (cache s)); [reflexivity|].
@@ -707,6 +712,8 @@ Proof.
         apply key_eqb_neq in E. symmetry. apply find_del_other. congruence.
       * intros k' i. apply find_del_sub.
     + rewrite H in Hr. discriminate.
+  - (* a refused constructor: the old handle stays *)
+    apply Heq. destruct (f <? 0); [reflexivity | discriminate].
 Qed.
 
 (* ... hence no later operation sequence can tell that the rejected operation was ever attempted *)
@@ -845,7 +852,7 @@ Proof.
       destruct (key_eqb k k') eqn:E; [reflexivity|]. apply key_eqb_neq in E.
       rewrite !find_del_other by congruence. apply HR.
   - split; [intros k; apply HR | reflexivity].
-  - split; [intros k; apply HR | reflexivity].
+  - rewrite Z.leb_antisym. destruct (f <? 0); simpl; (split; [intros k; apply HR | reflexivity]).
 Qed.
 
 Theorem run_refines ops : forall s m, Inv s -> R s m -> R (run s ops) (spec_run m ops).
@@ -874,7 +881,7 @@ Proof.
       * subst k. unfold load. now rewrite (proj2 (memk_In _ _) H), key_eqb_refl.
       * destruct (load_value s k I H E) as [n [_ Hl]]. now rewrite Hl.
     + intros H. destruct (memk k (keys s)) eqn:Em; [now apply memk_In|]. unfold load in H. rewrite Em in H. discriminate.
-  - intros f. simpl. symmetry. apply (inv_ks _ I).
+  - intros f. simpl. destruct (f <? 0); [reflexivity|]. simpl. symmetry. apply (inv_ks _ I).
   - intros k v Hks. split.
     + intros H. destruct (memk k (keys s)) eqn:Em.
       * apply memk_In in Em. destruct (load_value s k I Em Hks) as [n [Hf Hl]]. rewrite Hl in H. inversion H; subst.
@@ -933,7 +940,10 @@ Qed.
 (* THE HANDLES' FILTERS NEVER REACH THE FILE: the stored content (and hence the key set and every outcome) after a
    history does not depend on the filters the artifacts were opened with *)
 Lemma spec_step_erase m o : spec_step m (erase o) = spec_step m o.
-Proof. destruct o; reflexivity. Qed.
+Proof.
+  destruct o as [| | | | |f]; try reflexivity. simpl. rewrite (Z.leb_antisym f 0).
+  destruct (f <? 0) eqn:E; simpl; reflexivity.
+Qed.
 Lemma spec_run_erase ops : forall m, spec_run m (map erase ops) = spec_run m ops.
 Proof. induction ops as [|o r IH]; intros m; simpl; [reflexivity|]. now rewrite spec_step_erase, IH. Qed.
 
@@ -961,7 +971,8 @@ Theorem clear_reopen_neutral s o ops : Inv s -> (o = ClearCache \/ o = Reopen (f
 Proof.
   intros I Ho.
   assert (S : sim s (fst (step s o))).
-  { destruct Ho as [-> | ->]; (split; [|reflexivity]); simpl; repeat split; auto. apply (inv_ks _ I). }
+  { pose proof (inv_filt _ I) as Hf. apply Z.ltb_ge in Hf.
+    destruct Ho as [-> | ->]; simpl; [|rewrite Hf; simpl]; (split; [|reflexivity]); simpl; repeat split; auto. apply (inv_ks _ I). }
   assert (I' : Inv (fst (step s o))) by (now apply step_inv).
   repeat split.
   - intros k. unfold abs. destruct S as [[Hf _] _]. now rewrite <- (Hf k).
